@@ -174,6 +174,12 @@ func runC15(c *Ctx) {
 			if b != nil {
 				res = blockResult(b, 0)
 			}
+			{
+				// evaluate the function for this code (any switch / if-chain / result-variable form)
+				if v := tagReturnValue(fn, func(v ssa.Value) bool { return v == ssa.Value(fn.Params[0]) }, k, 0); v != nil {
+					res = v
+				}
+			}
 			name := "gRPC exporter retry classification of " + names[k]
 			if res == nil {
 				c.Undecided(name, p.Pos(fn.Pos()), "cannot evaluate the switch for this code")
@@ -214,6 +220,11 @@ func runC15(c *Ctx) {
 			if b != nil {
 				res = blockResult(b, 0)
 			}
+			{
+				if v := tagReturnValue(fn, func(v ssa.Value) bool { return v == ssa.Value(fn.Params[0]) }, k, 0); v != nil {
+					res = v
+				}
+			}
 			bv, isConst := constBool(res)
 			c.Check(res != nil && isConst && bv == httpRetryable[k], fmt.Sprintf("HTTP exporter retry classification of %d", k), p.Pos(fn.Pos()), fmt.Sprintf("retryable=%v", httpRetryable[k]), fmt.Sprintf("HTTP %d must be retryable=%v per the OTLP/HTTP specification", k, httpRetryable[k]))
 		}
@@ -224,10 +235,11 @@ func runC15(c *Ctx) {
 		c.Anchor("receiver GetHTTPStatusCodeFromStatus")
 	} else {
 		fn := p.SSAFunc(f)
-		cases, dflt := switchCases(fn, func(v ssa.Value) bool {
+		isCodeTag := func(v ssa.Value) bool {
 			call, ok := v.(*ssa.Call)
 			return ok && calleeOf(call) != nil && calleeOf(call).Name() == "Code"
-		})
+		}
+		cases, dflt := switchCases(fn, isCodeTag)
 		for _, k := range codes {
 			if names[k] == "OK" {
 				continue
@@ -240,7 +252,10 @@ func runC15(c *Ctx) {
 			if b != nil {
 				res = blockResult(b, 0)
 			}
-			hs, ok := constInt(res)
+			hs, ok := constInt(tagReturnValue(fn, isCodeTag, k, 0))
+			if !ok {
+				hs, ok = constInt(res)
+			}
 			name := "receiver HTTP status for gRPC " + names[k]
 			if !ok {
 				c.Undecided(name, p.Pos(fn.Pos()), "cannot evaluate")
@@ -271,7 +286,11 @@ func runC15(c *Ctx) {
 			if b != nil {
 				res = blockPhiValue(b, isCode)
 			}
-			gc, ok := constInt(res)
+			// evaluate the function for this status (default arm, initial value, if-chain: all the same)
+			gc, ok := constInt(tagCallArg(fn, func(v ssa.Value) bool { return v == ssa.Value(fn.Params[1]) }, k, isCode))
+			if !ok {
+				gc, ok = constInt(res)
+			}
 			name := fmt.Sprintf("gRPC code for HTTP %d", k)
 			if !ok {
 				c.Undecided(name, p.Pos(fn.Pos()), "cannot evaluate")
@@ -387,39 +406,37 @@ func runC15Wiring(c *Ctx, names map[int64]string) {
 			if len(rs) != 1 {
 				continue
 			}
-			np := callsNamed(fn, func(g *types.Func) bool { return isFunc(g, pkgConsErr, "NewPermanent") })
+			// the classification may be spread over helpers of the function (tail extracted into a
+			// same-package function, closure): sites are searched below fn and their guards are the
+			// guards along every static call path from fn
+			isRS := func(g Guard) (bool, bool) {
+				v, br := boolOf(g)
+				return v == rs[0].(ssa.Value), br
+			}
+			np := callsNamedBelow(fn, 3, func(g *types.Func) bool { return isFunc(g, pkgConsErr, "NewPermanent") })
 			permSide := false
 			for _, n := range np {
-				for _, g := range guardsOf(n.Block()) {
-					v, br := boolOf(g)
-					if v == rs[0].(ssa.Value) && !br {
-						permSide = true
-					}
+				if p.everyChain(fn, n, func(g Guard) bool { is, br := isRS(g); return is && !br }) {
+					permSide = true
 				}
 			}
 			// throttle returns guarded by status 429/503 and retryable
 			thrOK := true
 			nthr := 0
-			for _, nt := range callsNamed(fn, func(g *types.Func) bool { return g.Name() == "NewThrottleRetry" }) {
+			for _, nt := range callsNamedBelow(fn, 3, func(g *types.Func) bool { return g.Name() == "NewThrottleRetry" }) {
 				nthr++
-				retr := false
-				for _, g := range guardsOf(nt.Block()) {
-					v, br := boolOf(g)
-					if v == rs[0].(ssa.Value) && br {
-						retr = true
-					}
-				}
+				retr := p.everyChain(fn, nt, func(g Guard) bool { is, br := isRS(g); return is && br })
 				// 429/503 test feeds the guard: some controlling condition compares StatusCode with 429 or 503
-				codeTest := false
-				for _, g := range guardsOf(nt.Block()) {
+				codeTest := p.everyChain(fn, nt, func(g Guard) bool {
 					for v := range backSlice(g.Cond) {
 						if bo, ok := v.(*ssa.BinOp); ok && bo.Op == token.EQL {
 							if k, isC := constInt(bo.Y); isC && (k == 429 || k == 503) {
-								codeTest = true
+								return true
 							}
 						}
 					}
-				}
+					return false
+				})
 				if !retr || !codeTest {
 					thrOK = false
 				}
